@@ -7,7 +7,7 @@ ID = "C04"
 CRATE = "c04"
 COQ_DIR = "C04"
 COQ_DEPS = []
-PROFILES = ["debug"]          # the crate's own dev profile: opt-level 2 with debug assertions and overflow checks on
+PROFILES = ["debug", "release"]          # the crate's own dev profile: opt-level 2 with debug assertions and overflow checks on
 CORR_IMPORT = "From Coq Require Import Uint63.\nFrom RlibV Require Import C04.Model C04.Corr.\nOpen Scope Z_scope."
 AUDIT_IMPORT = ("From Coq Require Import ZArith List.\nImport ListNotations.\n"
                 "From RlibV Require Import C04.Model C04.Corr C04.ProofsState C04.AlgRing C04.ProofsTable C04.ProofsLevels C04.Properties.\n")
